@@ -27,36 +27,37 @@ type MsgSpec struct {
 }
 
 type RespPlan struct {
-	Headers        [][2]string `json:"headers,omitempty"`
-	Msgs           []MsgSpec   `json:"msgs,omitempty"`
-	Compression    string      `json:"compression,omitempty"`
-	Trailers       [][2]string `json:"trailers,omitempty"`
-	Err            *ErrSpec    `json:"err,omitempty"`
-	ErrInHeaders   bool        `json:"err_in_headers,omitempty"` // trailers-only where the protocol allows it
-	TrailerStyle   string      `json:"trailer_style,omitempty"`  // announce | prefix
-	AnnounceCase   string      `json:"announce_case,omitempty"`  // spelling of the names in the Trailer header: "" canonical | lower | upper | given | lines (one header line per name)
-	DeclareCL      string      `json:"declare_cl,omitempty"`     // "" | exact | +N | -N | =N
-	WriteMode      string      `json:"write_mode,omitempty"`     // whole | frames | prefix-payload | sizes
-	WriteSizes     []int       `json:"write_sizes,omitempty"`    // cyclic, for mode sizes
-	EmptyWrites    bool        `json:"empty_writes,omitempty"`   // interleave zero-length writes
-	FlushEvery     int         `json:"flush_every,omitempty"`    // flush after every k-th write (0: never)
-	ExplicitHdr    bool        `json:"explicit_header,omitempty"`
-	CutAt          int         `json:"cut_at,omitempty"`       // >0: stop writing the body after this many bytes and return (no end)
-	CutPlusEnd     bool        `json:"cut_plus_end,omitempty"` // with CutAt: still set trailers
-	BareStatus     int         `json:"bare_status,omitempty"`  // answer with a bare HTTP status
-	BareBody       []byte      `json:"bare_body,omitempty"`
-	BareCT         string      `json:"bare_ct,omitempty"`
-	GRPCStatusText string      `json:"grpc_status_text,omitempty"` // override the text of grpc-status / numeric code
-	EndRaw         []byte      `json:"end_raw,omitempty"`          // override the bytes of the end-of-stream frame payload
-	EndFlags       *int        `json:"end_flags,omitempty"`
-	OmitEnd        bool        `json:"omit_end,omitempty"`   // never signal the end (missing grpc-status / end frame)
-	ExtraHdrs      [][2]string `json:"extra_hdrs,omitempty"` // raw control headers (hostile)
-	RawBody        []byte      `json:"raw_body,omitempty"`   // if non-nil replaces the rendered body (hostile)
-	HasRawBody     bool        `json:"has_raw_body,omitempty"`
-	HasEndRaw      bool        `json:"has_end_raw,omitempty"`
-	RawStatus      int         `json:"raw_status,omitempty"`
-	ContentType    string      `json:"content_type,omitempty"` // override
-	HTTPBody       bool        `json:"http_body,omitempty"`    // REST target answering google.api.HttpBody: raw bytes
+	Headers          [][2]string `json:"headers,omitempty"`
+	Msgs             []MsgSpec   `json:"msgs,omitempty"`
+	Compression      string      `json:"compression,omitempty"`
+	Trailers         [][2]string `json:"trailers,omitempty"`
+	Err              *ErrSpec    `json:"err,omitempty"`
+	ErrInHeaders     bool        `json:"err_in_headers,omitempty"`     // trailers-only where the protocol allows it
+	TrailerStyle     string      `json:"trailer_style,omitempty"`      // announce | prefix
+	AnnounceCase     string      `json:"announce_case,omitempty"`      // spelling of the names in the Trailer header: "" canonical | lower | upper | given | lines (one header line per name)
+	StrayHTTPTrailer bool        `json:"stray_http_trailer,omitempty"` // a Connect-unary backend (whose trailers are Trailer- headers) also sets a real HTTP trailer, as a middleware might
+	DeclareCL        string      `json:"declare_cl,omitempty"`         // "" | exact | +N | -N | =N
+	WriteMode        string      `json:"write_mode,omitempty"`         // whole | frames | prefix-payload | sizes
+	WriteSizes       []int       `json:"write_sizes,omitempty"`        // cyclic, for mode sizes
+	EmptyWrites      bool        `json:"empty_writes,omitempty"`       // interleave zero-length writes
+	FlushEvery       int         `json:"flush_every,omitempty"`        // flush after every k-th write (0: never)
+	ExplicitHdr      bool        `json:"explicit_header,omitempty"`
+	CutAt            int         `json:"cut_at,omitempty"`       // >0: stop writing the body after this many bytes and return (no end)
+	CutPlusEnd       bool        `json:"cut_plus_end,omitempty"` // with CutAt: still set trailers
+	BareStatus       int         `json:"bare_status,omitempty"`  // answer with a bare HTTP status
+	BareBody         []byte      `json:"bare_body,omitempty"`
+	BareCT           string      `json:"bare_ct,omitempty"`
+	GRPCStatusText   string      `json:"grpc_status_text,omitempty"` // override the text of grpc-status / numeric code
+	EndRaw           []byte      `json:"end_raw,omitempty"`          // override the bytes of the end-of-stream frame payload
+	EndFlags         *int        `json:"end_flags,omitempty"`
+	OmitEnd          bool        `json:"omit_end,omitempty"`   // never signal the end (missing grpc-status / end frame)
+	ExtraHdrs        [][2]string `json:"extra_hdrs,omitempty"` // raw control headers (hostile)
+	RawBody          []byte      `json:"raw_body,omitempty"`   // if non-nil replaces the rendered body (hostile)
+	HasRawBody       bool        `json:"has_raw_body,omitempty"`
+	HasEndRaw        bool        `json:"has_end_raw,omitempty"`
+	RawStatus        int         `json:"raw_status,omitempty"`
+	ContentType      string      `json:"content_type,omitempty"` // override
+	HTTPBody         bool        `json:"http_body,omitempty"`    // REST target answering google.api.HttpBody: raw bytes
 }
 
 type BackendPlan struct {
@@ -898,6 +899,9 @@ func (h *backendHandler) respond(st *rpcState, obs *BackendObs, rw http.Response
 	_ = rp
 }
 
+// strayTrailerKey is not part of any plan's metadata: what becomes of it is not judged, what becomes of the rest is.
+const strayTrailerKey = "X-Stray-Http-Trailer"
+
 // announceTrailers sets the Trailer header the way the plan spells it; field names are case-insensitive, so every
 // spelling announces the same trailers.
 func announceTrailers(hd http.Header, names []string, style string) {
@@ -973,6 +977,9 @@ func (h *backendHandler) writeResponse(st *rpcState, obs *BackendObs, rw http.Re
 	if cut && !rp.CutPlusEnd {
 		obs.Responded = true
 		return
+	}
+	if rp.StrayHTTPTrailer && obs.Protocol == ProtoConnect && !obs.Stream {
+		rw.Header().Add(http.TrailerPrefix+strayTrailerKey, "t=1")
 	}
 	for _, kv := range rr.trailers {
 		// like connect-go and grpc-go, ask the writer for its header map at the time the trailers are set
